@@ -59,8 +59,8 @@ impl Property for C01 {
     }
     fn runs(&self, tier: Tier) -> u64 {
         match tier {
-            Tier::Quick => 500,
-            Tier::Thorough => 10000,
+            Tier::Quick => 1500,
+            Tier::Thorough => 30000,
         }
     }
     fn rule(&self) -> &'static str {
